@@ -80,8 +80,35 @@ func NewEventSerializer(parentLogger logger.Logger, schema base.LogSchema, confi
 
 // SerializeRecord serializes log records into streams
 func (packer *eventSerializer) SerializeRecord(record *base.LogRecord) base.LogStream {
+	// the buffer is made for twice the record limit, but a field that is inlined into another one is output twice and
+	// transforms can enlarge fields: make room first if this record could need more
+	if maxLength := packer.maxEncodedLength(record); maxLength > len(packer.buffer) {
+		packer.buffer = make([]byte, maxLength)
+	}
 	length := packer.encodeRecord(record, packer.buffer)
 	return packer.buffer[:length]
+}
+
+// maxEncodedLength returns an upper bound of what encodeRecord writes for the given record
+func (packer *eventSerializer) maxEncodedLength(record *base.LogRecord) int {
+	const maxHeaderLength = 5 // msgpack str32 / map16 / ext8 headers
+	fields := record.Fields[0:len(packer.fieldMasks)]
+	total := 64 // root array, event time, root map header, "environment" key and map header
+	for i, value := range fields {
+		if packer.fieldMasks[i] || len(value) == 0 {
+			continue
+		}
+		total += len(packer.serializedFieldKeys[i]) + maxHeaderLength
+		if rewriter := packer.fieldRewriters[i]; rewriter != nil {
+			total += rewriter.MaxFieldLength(value, record)
+		} else {
+			total += len(value)
+		}
+	}
+	for i, loc := range packer.envFieldLocators {
+		total += len(packer.serializedEnvFieldKeys[i]) + maxHeaderLength + len(loc.Get(fields))
+	}
+	return total + 1 // encodeRecord treats a completely filled buffer as an overflow
 }
 
 // encodeRecord encodes the given log record to buffer and returns the end position.
